@@ -16,6 +16,13 @@ def composite(ctx, rid, qname, mode):
     m = qname.split('::')[-1]
     inner = [c for c in fn.all('CXXMemberCallExpr') if (fn.nodes[c].get('callee') or '').endswith('::' + m)]
     loops = fn.all('CXXForRangeStmt', 'ForStmt', 'WhileStmt')
+    if inner and not loops:
+        # the delegated query is there but not inside a loop over the children (and not in the predicate of an algorithm,
+        # which would be a function of its own): it is asked of ONE child that was picked by something else
+        for c in inner:
+            ctx.ob(rid, fn, c, False, 'delegated %s in %s' % (m, qname),
+                   'asked of a single child outside any loop over the children: the other children are never asked')
+        return
     if not inner or not loops:
         raise AnalysisBroken('%s: composite %s is no longer a loop over children with a delegated call' % (rid, qname))
     cks = set(fn.key(c) for c in inner)
@@ -573,7 +580,46 @@ def r12(ctx):
         raise AnalysisBroken('C13.R12: no optional name argument found in message.cpp')
 
 
+def r13(ctx):
+    ctx.rule('C13.R13', 'the cached verdict of a condition is the verdict it last gave: on every path through SimpleCondition::isTrue '
+             'that advances m_lastCheckTime (a re-evaluation), m_isTrue is written too and the value returned is that cached '
+             'value (or the same constant); otherwise the next call takes the "unchanged" shortcut and returns a stale verdict',
+             minimum=1)
+    fb = ctx.fb
+    fn = fb.fn('ebusd::SimpleCondition::isTrue')
+    ctx.touch(fn)
+    adv = set(nid for nid, d, rhs, op, lhs in fn.assignments() if d == 'this.m_lastCheckTime')
+    sets = dict((nid, rhs) for nid, d, rhs, op, lhs in fn.assignments() if d == 'this.m_isTrue' and rhs is not None)
+    if not adv or not sets:
+        raise AnalysisBroken('C13.R13: m_lastCheckTime / m_isTrue not written in SimpleCondition::isTrue')
+    bad = []
+
+    def on_elem(user, e, path):
+        advanced, cached = user
+        if e in adv:
+            advanced = True
+        if e in sets:
+            c = fn.val(sets[e])
+            cached = ('c', c) if c is not None else ('e', fn.key(sets[e]))
+        v = fn.nodes[e]
+        if v['k'] == 'ReturnStmt':
+            if advanced:
+                rv = v.get('val')
+                rk = fn.key(rv) if rv is not None else None
+                ok = cached is not None and (rk == 'this.m_isTrue' or (cached[0] == 'c' and fn.val(rv) == cached[1]) or
+                                             (cached[0] == 'e' and rk == cached[1]))
+                if not ok:
+                    bad.append(e)
+            return None
+        return (advanced, cached)
+    facts.Explorer(fn, on_elem=on_elem).run(fn.entry, 0, (False, None))
+    ctx.ob('C13.R13', fn, fn.body, not bad, 'verdict returned by a re-evaluation',
+           'returns without caching the verdict at line(s) %s' % sorted(set(fn.line_of(x) for x in bad)) if bad else
+           'every re-evaluating path caches what it returns')
+
+
 def run(ctx):
+    r13(ctx)
     r12(ctx)
     r11(ctx)
     tolower_rule(ctx, 'C13.R10')
